@@ -53,6 +53,16 @@ def step (s : St) (w : List String) : St × String :=
     match wordOf a with
     | some a => (s, hex2 (s.bus.read a))
     | none => (s, "bad-op")
+  | ["memsum"] =>
+    -- the same checksum the harness computes through Mapper.Read over VRAM, WRAM, OAM, HRAM
+    let inRange (a : Nat) : Bool := (0x8000 ≤ a && a ≤ 0x9fff) || (0xc000 ≤ a && a ≤ 0xdfff) ||
+      (0xfe00 ≤ a && a ≤ 0xfe9f) || (0xff80 ≤ a && a ≤ 0xfffe)
+    let sum := s.bus.mem.fold (fun (acc : Nat) a v =>
+      if inRange a && v != 0 then (acc + (a * 256 + v.toNat) * 2654435761) % 4294967296 else acc) 0
+    (s, hexN 8 sum)
+  | ["input"] =>
+    let s' := { s with cpu := { s.cpu with regs := { s.cpu.regs with stopped := false } } }
+    (s', render s')
   | ["c", n] =>
     match n.toNat? with
     | some n =>
